@@ -25,6 +25,7 @@ func init() {
 			"(R2) ProtobufDecoder.Decode allocates and reads a message only if the declared length — compared as the unsigned 64-bit value read from the wire, before any conversion — is not above the limit constant; it then reads exactly that many bytes with ReadFull and unmarshals exactly them; " +
 			"(R3) ProtobufEncoder.Encode appends the varint of the message's size and then the marshalled message to one buffer and hands it to the writer in a single Write; the buffer is reset to length zero afterwards on every path; " +
 			"(R4, sibling agreement) Algorithm.Compress and Algorithm.Decompress handle exactly the same set of algorithm constants, which is exactly the set Algorithm.Supported can report. " +
+			"(R5, io.Writer contract) no Write method of the compression, stream and encoding packages keeps a view of its argument in a field, global, map or channel — the layers above reuse their buffers, so a retained view (e.g. as a compressor's dictionary) would silently change under it; " +
 			"Not decided: flate/zstd sync-flush behaviour (third party), arbitrary fragmentation (follows from ReadFull/ReadUvarint contracts).",
 		Assumptions: []string{"bufio.Writer.Flush, compressors' Flush and io.ReadFull behave as documented"},
 		Run:         runC22,
@@ -32,6 +33,7 @@ func init() {
 }
 
 func runC22(c *eng.Ctx) {
+	c22NoRetain(c)
 	// R1.
 	for _, spec := range []struct{ fn, side string }{{"NewEndpoint", "client"}, {"ServeEndpoint", "server"}} {
 		fn := c.MustFunc("R1", remotePkg, spec.fn)
